@@ -9,7 +9,7 @@ TECH = ('symbolic execution of the real NumPy code over object arrays of symboli
         'obligations as SMT-LIB QF_(UF)NRA queries decided by z3 4.8.12 (unsat = holds for all inputs within the bounds), '
         'counterexamples replayed on the unpatched code')
 NOTE = ('Bounded: cell counts per axis and scenario families as listed in the evidence file (coverage.bounds); '
-        'float64 arithmetic modelled as exact real arithmetic with literals at their double value (rounding, overflow, NaN '
+        'float64 arithmetic modelled as exact real arithmetic with every float64 literal mapped to the simplest real that round-trips to it (rounding, overflow, NaN '
         'propagation outside the claim); trusted: z3 verdicts, the tracing layer (validated on every run against real '
         'NumPy/SciPy at random points), the independent oracles named in coverage.trusted_base; environment stubs: np shim, '
         'SymCSR for csr_array, SymTracked for TrackedArray, solver stub returning fresh unknowns under the hypothesis M x = RHS.')
